@@ -200,7 +200,8 @@ fn parse_string(input: &str, span: Span) -> Result<String, Error> {
             b'\'' => '\'',
             b'"' => '"',
             b'\r' | b'\n' => {
-                rem = rem.trim_start();
+                // a line continuation skips only the whitespace that rustc skips
+                rem = rem.trim_start_matches(|c| matches!(c, ' ' | '\t' | '\n' | '\r'));
                 continue;
             }
             _ => return Err(make_err(rem, "invalid escape")),
